@@ -157,7 +157,14 @@ def run_server(kconfig, sdkconfig, sdkconfig_rename, default_version=MAX_PROTOCO
         before_ranges = get_ranges(config)
         before_visible = get_visible(config)
 
-        if "version" not in req:
+        malformed = validate_request(req)
+        if malformed:
+            # The request does not have the documented structure: report it and leave the configuration alone
+            response = {
+                "version": default_version,
+            }
+            error = malformed
+        elif "version" not in req:
             response = {
                 "version": default_version,
             }
@@ -228,6 +235,27 @@ def run_server(kconfig, sdkconfig, sdkconfig_rename, default_version=MAX_PROTOCO
         json.dump(response, sys.stdout)
         sys.stdout.write("\n")
         sys.stdout.flush()
+
+
+def validate_request(req) -> List[str]:
+    """
+    Check the JSON types of a decoded request against the documented protocol.
+    Returns a list of error messages, empty if the request can be processed.
+    """
+    if not isinstance(req, dict):
+        return ["Request must be a JSON object"]
+
+    error = []
+    if "version" in req and (not isinstance(req["version"], int) or isinstance(req["version"], bool)):
+        error.append("'version' must be an integer")
+    if "set" in req and not isinstance(req["set"], dict):
+        error.append("'set' must be an object mapping config symbol names to values")
+    if "reset" in req and not (isinstance(req["reset"], list) and all(isinstance(name, str) for name in req["reset"])):
+        error.append("'reset' must be a list of config symbol names and menu IDs")
+    for key in ("load", "save"):
+        if key in req and req[key] is not None and not isinstance(req[key], str):
+            error.append(f"'{key}' must be a filename or null")
+    return error
 
 
 def get_sym_default_value_dict(config: kconfiglib.Kconfig) -> Dict[str, bool]:
